@@ -6,6 +6,7 @@ package main
 
 import (
 	"fmt"
+	"math"
 	"os"
 
 	"github.com/ctessum/geom"
@@ -409,6 +410,53 @@ func allVariants(g geom.Geom, tol float64, salt, depth int) []variant {
 	return out
 }
 
+// generated adds a programmatic family for the thorough tier: rings of 3..6
+// vertices (jittered regular polygons, closed), polygons of 1..3 such rings,
+// multi-polygons of 1..3 polygons, multi-line strings and collections built
+// from the same vertices. Members are >= 150 apart, tolerances <= 0.1.
+func generated() []geom.Geom {
+	ring := func(id, n int) geom.Path {
+		cx, cy := float64(300*(id%7)), float64(300*(id/7))
+		var r geom.Path
+		for k := 0; k < n; k++ {
+			a := 2*math.Pi*float64(k)/float64(n) + 0.3*float64(id%5)
+			j := float64((id*31+k*17)%13) - 6
+			r = append(r, geom.Point{X: cx + (60+j)*math.Cos(a), Y: cy + (60-j)*math.Sin(a)})
+		}
+		return append(r, r[0])
+	}
+	var out []geom.Geom
+	id := 0
+	var polys []geom.Polygon
+	for rings := 1; rings <= 3; rings++ {
+		for n := 3; n <= 6; n++ {
+			var p geom.Polygon
+			for k := 0; k < rings; k++ {
+				p = append(p, ring(id, n+(k%2)))
+				id++
+			}
+			polys = append(polys, p)
+			out = append(out, p)
+		}
+	}
+	for m := 1; m <= 3; m++ {
+		for s := 0; s+m <= len(polys); s += 4 {
+			out = append(out, geom.MultiPolygon(polys[s:s+m]))
+		}
+	}
+	for m := 1; m <= 3; m++ {
+		var ml geom.MultiLineString
+		for k := 0; k < m; k++ {
+			r := ring(40+id, 3+k)
+			id++
+			ml = append(ml, geom.LineString(r[:len(r)-1]))
+		}
+		out = append(out, ml, geom.MultiPoint(ml[0]), ml[0])
+	}
+	out = append(out, geom.GeometryCollection{polys[0], geom.MultiPolygon(polys[4:6]), geom.LineString(ring(90, 4)[:4]), geom.GeometryCollection{polys[9], geom.Point{X: 5000, Y: 5000}}})
+	return out
+}
+
 func main() {
 	tier := "quick"
 	if len(os.Args) > 1 {
@@ -422,6 +470,9 @@ func main() {
 	rep = report.New("C15", tier, "model_checking")
 	rep.Rule = "E1: 19 base geometries of all eight types (axis-aligned and general-position rings, closed and unclosed, nested collections, empty geometries) whose members are >= 90 apart, tol in {1e-3, 0.1}; for each every derived h: identity; all coordinates perturbed by +-tol/2 in 6 sign patterns (expected true); every permutation of members combined with perturbation (true); every start rotation of closed rings (true); every single coordinate displaced by 2*tol, incl. the closing vertex of a closed ring on its own (false); every member deleted / duplicated at every position (false); every line / line member reversed (false); change of type with identical vertices (false); and, for containers, every such derivation applied to every member with the other members unchanged (nested to depth 2: rings permuted inside a multi-polygon member, members of a nested collection, ...). Every pair is evaluated in both directions (symmetry). Non-trivial = every derivation other than identity."
 	cat := catalogue()
+	if tier == "thorough" {
+		cat = append(cat, generated()...)
+	}
 	tols := []float64{1e-3, 0.1}
 	for gi, g := range cat {
 		for _, tol := range tols {
